@@ -631,10 +631,28 @@ def main(ctx):
                                 'note': log3})
     proof_ok = ok1 and ok2
     kproof_ok = ok1 and ok3
+    for o in ctx.obligations:
+        if o['name'].endswith(('_refuted', '_rejected')) and not o['note']:
+            o['note'] = ('kernel-checked REFUTATION: the configuration translated from the tree under test '
+                         'violates the property on the witness the model computed (reported as a finding)')
+    ctx.notes['property_proved_for_this_tree'] = {
+        'crash_safe/save_then_read/cache_transparent': bool(cfg_ok) and proof_ok,
+        'dict_roundtrip (key scheme)': bool(kcfg_ok) and kproof_ok}
     ctx.checker_cmd = ('cd /verif/coq && make C05/Props.vo C05/gen/Run.vo C05/gen/RunKeys.vo (coqc '
                        '8.16.1) + Print Assumptions of every theorem of these three files')
     if not (proof_ok and kproof_ok):
         ctx.notes['build_log_tail'] = (log1 + log2 + log3)[-1500:]
+    if ctx.tier == 'thorough' and proof_ok and kproof_ok:
+        rc, o, e, dt = lib.sh(['coqchk', '-silent', '-o', '-Q', '.', 'FV', 'FV.C05.Props', 'FV.C05.gen.Run',
+                               'FV.C05.gen.RunKeys'], cwd=lib.COQ, timeout=900)
+        ctx.notes['coqchk'] = {'exit': rc, 'seconds': round(dt, 1),
+                               'axioms_none': 'Axioms: <none>' in (o + e)}
+        ctx.log(f'coqchk exit {rc} ({dt:.0f}s)')
+        if rc != 0 or 'Axioms: <none>' not in (o + e):
+            proof_ok = False
+            ctx.notes['coqchk']['tail'] = (o + e)[-800:]
+            ctx.obligations.append({'name': 'coqchk C05', 'discharged': False, 'assumptions': [],
+                                    'note': 'coqchk failed or reports axioms'})
 
     # ---- 3. implementation
     files = {c: f for c, f in zip(COMPS, ['femio_nodes.npz', 'femio_elements.npz', 'femio_nodal_data.npz',
@@ -927,9 +945,12 @@ def main(ctx):
 
 
 def replay(path):
-    rp = json.loads(Path(path).read_text())
+    text = Path(path).read_text()
+    rp = json.loads(text)
     c = rp['case']
     ctx = lib.Ctx('C05', 'quick')
+    if not Path(path).exists():      # lib.Ctx clears evidence/replay/C05_*.json
+        Path(path).write_text(text)
     cfg, _ = c05_effects.translate(str(lib.REPO))
     files = {COMPS[COQ_COMP.index(k)]: f for k, f in cfg['load_names']}
     if 'ops' in c:
